@@ -60,6 +60,11 @@ type PartitionLog struct {
 	flushCond    *sync.Cond
 	s3sem        *semaphore.Weighted
 	flushing     bool
+	// publishMu serializes onFlush callbacks and published is the highest
+	// offset handed to onFlush (initially startOffset-1), so that callbacks of
+	// two flushes cannot land out of order and move the durable offset back.
+	publishMu sync.Mutex
+	published int64
 	// flushingBatches holds the batches drained by prepareFlush but not yet
 	// committed to a segment by uploadFlush. During that window an acknowledged
 	// offset is in neither the live buffer (drained) nor l.segments (not yet
@@ -92,6 +97,7 @@ func NewPartitionLog(namespace string, topic string, partition int32, startOffse
 		cfg:          cfg,
 		buffer:       NewWriteBuffer(cfg.Buffer),
 		nextOffset:   startOffset,
+		published:    startOffset - 1,
 		onFlush:      onFlush,
 		onS3Op:       onS3Op,
 		segments:     make([]segmentRange, 0),
@@ -261,9 +267,7 @@ func (l *PartitionLog) AppendBatch(ctx context.Context, batch RecordBatch) (*App
 		if err := l.uploadFlush(ctx, artifact); err != nil {
 			return nil, err
 		}
-		if l.onFlush != nil {
-			l.onFlush(ctx, artifact)
-		}
+		l.publishFlush(ctx, artifact)
 	}
 	return result, nil
 }
@@ -335,10 +339,26 @@ func (l *PartitionLog) Flush(ctx context.Context) error {
 			}
 		}
 		if target != nil {
-			l.onFlush(ctx, target)
+			l.publishFlush(ctx, target)
 		}
 	}
 	return nil
+}
+
+// publishFlush hands a flushed artifact to onFlush. Calls are serialized and an
+// artifact older than one already published is skipped: onFlush stores the
+// partition's durable end offset, which must never move backwards.
+func (l *PartitionLog) publishFlush(ctx context.Context, artifact *SegmentArtifact) {
+	if l.onFlush == nil || artifact == nil {
+		return
+	}
+	l.publishMu.Lock()
+	defer l.publishMu.Unlock()
+	if artifact.LastOffset < l.published {
+		return
+	}
+	l.published = artifact.LastOffset
+	l.onFlush(ctx, artifact)
 }
 
 // prepareFlush drains the buffer and builds a segment artifact under l.mu.
